@@ -438,7 +438,34 @@ def _limits_alternatives(repo, K: ClassInfo, f: FuncInfo, call: ast.Call, bound_
                 else:
                     out += alts(d.value, func, dfl, d.node, depth + 1)
             return out
-        return [(cn.rat(expr), norm_text(expr))]
+        # a compound expression: inline the locals it mentions (single straight-line definitions)
+        import copy as _copy
+
+        def inline(e: ast.expr, node_: int, d_=0) -> ast.expr:
+            if d_ > 8:
+                raise AnalysisError(f"{func.qualname}: local definitions too deep")
+            mapping = {}
+            for n_ in ast.walk(e):
+                if isinstance(n_, ast.Name) and isinstance(n_.ctx, ast.Load) and n_.id not in mapping and n_.id != "self":
+                    defs_ = dfl.reaching(node_, n_.id)
+                    if not defs_ or any(d2.kind == "param" for d2 in defs_):
+                        continue
+                    d2 = dfl.single_def(node_, n_.id)
+                    if d2 is None or d2.kind != "assign" or d2.value is None:
+                        raise AnalysisError(f"{func.qualname}: local `{n_.id}` in `{norm_text(e)[:40]}` has no single "
+                                            "definition")
+                    st2 = dfl.cfg.nodes[d2.node].ast
+                    if isinstance(st2, ast.Assign) and isinstance(st2.targets[0], ast.Tuple):
+                        continue  # tuple unpacking: left as an atom
+                    mapping[n_.id] = inline(d2.value, d2.node, d_ + 1)
+
+            class _S(ast.NodeTransformer):
+                def visit_Name(self, n2):
+                    return _copy.deepcopy(mapping[n2.id]) if isinstance(n2.ctx, ast.Load) and n2.id in mapping else n2
+
+            return _S().visit(_copy.deepcopy(e)) if mapping else e
+
+        return [(cn.rat(inline(expr, node)), norm_text(expr))]
 
     return alts(bound_expr, f, df, at)
 
